@@ -82,10 +82,12 @@ const (
 )
 
 const (
+	ePERM     = 1
 	eNOENT    = 2
 	eIO       = 5
 	eBADF     = 9
 	eACCES    = 13
+	eXDEV     = 18
 	eEXIST    = 17
 	eNOTDIR   = 20
 	eISDIR    = 21
@@ -97,7 +99,7 @@ const (
 
 var errnoText = map[int]string{eNOENT: "no such file or directory", eIO: "input/output error", eBADF: "bad file descriptor", eACCES: "permission denied",
 	eEXIST: "file exists", eNOTDIR: "not a directory", eISDIR: "is a directory", eINVAL: "invalid argument", eMFILE: "too many open files",
-	eNOSPC: "no space left on device", eNOTEMPTY: "directory not empty"}
+	eNOSPC: "no space left on device", eNOTEMPTY: "directory not empty", ePERM: "operation not permitted", eXDEV: "invalid cross-device link"}
 
 func (e *envState) FS() *vfs {
 	if e.fs == nil {
@@ -157,6 +159,7 @@ type resolved struct {
 	ino    *inode // nil if the last component does not exist
 	errno  int
 	path   string
+	ent    *dirent // the last component's own directory entry (hard links: several entries may share an inode)
 }
 
 // resolve walks the path. followLast: follow a symlink in the last component.
@@ -207,6 +210,7 @@ func (fs *vfs) resolve(p Str, followLast bool) resolved {
 			r := resolved{parent: cur, name: c, path: "/" + strings.Join(append(names, c.Show()), "/")}
 			if e != nil {
 				r.ino = e.ino
+				r.ent = e
 				if e.ino.kind == 'l' && followLast {
 					t := fs.resolve(e.ino.target, true)
 					if t.errno != 0 || t.ino == nil {
@@ -277,6 +281,18 @@ func (in *Interp) pathError(op string, path Str, errno int) Iface {
 	o.Slots[0] = in.strConst(op)
 	o.Slots[1] = path
 	o.Slots[2] = in.errnoValue(errno)
+	return Iface{T: types.NewPointer(t), V: Ptr{Obj: o}}
+}
+
+// linkError builds an *os.LinkError (os.Link, and os.Rename natively; the engine's rename reports
+// a PathError, which the code under test only ever treats as an opaque error).
+func (in *Interp) linkError(op string, oldp, newp Str, errno int) Iface {
+	t := in.namedType("os", "LinkError")
+	o := in.newObj(t)
+	o.Slots[0] = in.strConst(op)
+	o.Slots[1] = oldp
+	o.Slots[2] = newp
+	o.Slots[3] = in.errnoValue(errno)
 	return Iface{T: types.NewPointer(t), V: Ptr{Obj: o}}
 }
 
@@ -466,7 +482,11 @@ func (fs *vfs) remove(name Str) Iface {
 		fs.event(fsEvent{Op: "unlink", Path: r.path, PathS: name, Err: errnoText[en]})
 		return in.pathError("remove", name, en)
 	}
-	fs.unlinkEntry(r.parent, r.ino)
+	if r.ent != nil {
+		fs.removeDirent(r.parent, r.ent)
+	} else {
+		fs.unlinkEntry(r.parent, r.ino)
+	}
 	fs.event(fsEvent{Op: "unlink", Path: r.path, PathS: name, Ino: r.ino.id, Dir: r.parent.id, Name: r.name})
 	return Iface{}
 }
@@ -517,16 +537,18 @@ func (fs *vfs) rename(from, to Str) Iface {
 		return Iface{}
 	}
 	old := 0
-	var srcEnt *dirent
-	for _, e := range a.parent.entries {
-		if e.ino == a.ino {
-			srcEnt = e
+	srcEnt := a.ent
+	if srcEnt == nil {
+		for _, e := range a.parent.entries {
+			if e.ino == a.ino {
+				srcEnt = e
+			}
 		}
 	}
 	if b.ino != nil {
 		old = b.ino.id
 		for _, e := range b.parent.entries {
-			if e.ino == b.ino {
+			if (b.ent != nil && e == b.ent) || (b.ent == nil && e.ino == b.ino) {
 				e.ino = a.ino // the target name now refers to the source inode (atomic replace)
 			}
 		}
@@ -586,6 +608,35 @@ func registerVFS(p *Program) {
 		}
 		r.ino.perm = in.ts.BvAnd(a[1].(*Term), in.ts.Const(32, 07777))
 		fs.event(fsEvent{Op: "chmod", Path: r.path, Ino: r.ino.id})
+		return Iface{}
+	}
+	I["os.Link"] = func(in *Interp, fr *frame, a []Value) Value {
+		fs := in.env.FS()
+		if en := fs.fault("link", eNOSPC); en != 0 {
+			fs.event(fsEvent{Op: "link", Path: a[1].(Str).Show(), PathS: a[1].(Str), Err: errnoText[en]})
+			return in.linkError("link", a[0].(Str), a[1].(Str), en)
+		}
+		o := fs.resolve(a[0].(Str), false)
+		n := fs.resolve(a[1].(Str), false)
+		en := o.errno
+		if en == 0 && (o.ino == nil || o.parent == nil) {
+			en = eNOENT
+		}
+		if en == 0 && o.ino.kind == 'd' {
+			en = ePERM
+		}
+		if en == 0 {
+			en = n.errno
+		}
+		if en == 0 && (n.ino != nil || n.parent == nil) {
+			en = eEXIST
+		}
+		if en != 0 {
+			fs.event(fsEvent{Op: "link", Path: n.path, PathS: a[1].(Str), Err: errnoText[en]})
+			return in.linkError("link", a[0].(Str), a[1].(Str), en)
+		}
+		n.parent.entries = append(n.parent.entries, &dirent{name: n.name, ino: o.ino})
+		fs.event(fsEvent{Op: "link", Path: n.path, PathS: a[1].(Str), Ino: o.ino.id, Dir: n.parent.id, Name: n.name})
 		return Iface{}
 	}
 	I["os.Symlink"] = func(in *Interp, fr *frame, a []Value) Value {
